@@ -7,6 +7,7 @@
 -/
 import Gmars.Driver.Wire
 import Gmars.Spec.Api
+import Gmars.Proofs.Abs
 
 namespace Gmars.Driver
 open Gmars Gmars.Wire
@@ -162,13 +163,13 @@ def specCompare (st : CaseState) (s : Spec.Api) (o : Obs) : Option String :=
         some s!"core diff {got.map (fun (a, c) => s!"{a}:{showSCell c}")} != reference {d.map (fun (a, c) => s!"{a}:{showSCell c}")}"
       else none
 
-/-- last-writer fold of a report stream: the specification of the state recorder -/
+/-- last-writer fold of a report stream: the specification of the state recorder
+    (an array of (kind, owner) per address; `(0, -1)` = empty) -/
 def recFold (M : Nat) (lenOf : Int → Nat) (recordReads : Bool)
-    (acc : List (Nat × Nat × Int)) (r : Report) : List (Nat × Nat × Int) :=
-  let put (acc : List (Nat × Nat × Int)) (a : Nat) (s : Nat) : List (Nat × Nat × Int) :=
-    (a, s, r.wi) :: acc.filter (·.1 != a)
+    (acc : Array (Nat × Int)) (r : Report) : Array (Nat × Int) :=
+  let put (acc : Array (Nat × Int)) (a : Nat) (s : Nat) : Array (Nat × Int) := acc.setIfInBounds a (s, r.wi)
   match r.typ with
-  | .simReset => []
+  | .simReset => Array.replicate M (0, -1)
   | .warriorSpawn => (List.range (lenOf r.wi)).foldl (fun acc i => put acc ((r.addr.toNat + i) % M) 2) acc
   | .taskTerminate => put acc r.addr.toNat 6
   | .taskPop => put acc r.addr.toNat 1
